@@ -100,6 +100,8 @@ type Deviation struct {
 }
 
 type World struct {
+	watchAddr          unsafe.Pointer
+	watchAcq, watchRel func()
 	tasks    []*Task
 	active   []*Task
 	cur      *Task
@@ -806,11 +808,32 @@ func RunUnlockHooks() {
 	}
 }
 
+// WatchMutex registers callbacks for one mutex (by address): onAcquire runs in the acquiring task right
+// after it got the lock, onRelease in the releasing task just before it gives the lock up; neither is
+// a scheduling point (harness use: bracket otter's maintenance passes under the eviction lock).
+func (w *World) WatchMutex(addr unsafe.Pointer, onAcquire, onRelease func()) {
+	w.watchAddr, w.watchAcq, w.watchRel = addr, onAcquire, onRelease
+}
+
+// PreUnlock is called by the mutex shim before it releases a mutex.
+func PreUnlock(addr unsafe.Pointer) {
+	if w := W; w != nil && w.watchAddr == addr && w.watchRel != nil && w.cur != nil {
+		w.nopreempt++
+		w.watchRel()
+		w.nopreempt--
+	}
+}
+
 // NoteLock / NoteUnlock let the mutex shim record which locks the current task holds and since when
 // (event sequence value at acquisition).
 func NoteLock(addr unsafe.Pointer) {
 	if w := W; w != nil && w.cur != nil {
 		w.cur.held = append(w.cur.held, heldLock{addr, w.evseq})
+		if w.watchAddr == addr && w.watchAcq != nil {
+			w.nopreempt++
+			w.watchAcq()
+			w.nopreempt--
+		}
 	}
 }
 
